@@ -48,8 +48,8 @@ class Containers(object):
             x = np.asfortranarray(np.array(mat, dtype=np.float64))
         else:
             path = os.path.join(self.dir, 's.fcs')
-            dt = 'F' if kind == 'sample-float32' else 'I'
-            vals = [[float(v) for v in row] for row in mat] if dt == 'F' else mat
+            dt = 'F' if kind == 'sample-float32' else ('D' if kind == 'sample-double-used' else 'I')
+            vals = [[float(v) for v in row] for row in mat] if dt in ('F', 'D') else mat
             if kind == 'sample-int8':
                 fcsgen.write_sample(path, vals, ['c%d' % i for i in range(nc)], [256] * nc, bits=8, datatype=dt, pne=['0,0'] * nc)
             else:
@@ -57,6 +57,10 @@ class Containers(object):
             with warnings.catch_warnings():
                 warnings.simplefilter('ignore')
                 x = FlowCal.io.FCSData(path)
+                if kind == 'sample-double-used':
+                    # the RAW sample of a double-precision file, after its RFI version was made (and dropped): the raw
+                    # statistics are still those of the recorded events
+                    FlowCal.transform.to_rfi(x, amplification_type=[(0, 0)] * nc, amplifier_gain=[2.0] * nc)
                 if kind in ('sample-rfi', 'sample-rfi-F'):
                     x = FlowCal.transform.to_rfi(x)
                 if kind == 'sample-rfi-F':
